@@ -111,6 +111,10 @@ def gen(S, tier):
         "tty_out": c.chance(0.5), "tty_err": c.chance(0.5),
         "raises": f.chance(0.25), "question_default": c.chance(0.5),
         "input": f.pick([[], [], ["y\n"], ["n\n"], ["\n"]]),
+        # how the handler is attached: an object, or a factory that builds one when asked; with the
+        # version switch after the path the handler is not needed at all - the factory may be broken
+        "handler_kind": ("factory_raises" if ("version" in kinds and "help" not in kinds and all(p_ >= len(path) for _, _, p_ in switches) and f.chance(0.5))
+                         else c.pick(["object", "object", "factory"])),
     }
 
 
@@ -220,7 +224,11 @@ def _run(sc):
 
     for h in all_hids(sc["app"]["commands"]):
         scripts[h] = script
-    app = apptree.build_app(sc["app"], scripts, inv, [(PRE_HANDLE, observer, -100)])
+    app = apptree.build_app(sc["app"], scripts, inv, [(PRE_HANDLE, observer, -100)],
+                            handler_kinds={sc["hid"]: sc.get("handler_kind", "object")})
+    if sc.get("handler_kind") == "factory_raises":
+        res.fault("handler_factory_raises")
+        res.probe("version_with_unbuildable_handler")
     tokens = _tokens(sc)
     out = SimOutputStream("out", log, ansi=sc["tty_out"])
     err = SimOutputStream("err", log, ansi=sc["tty_err"])
